@@ -480,7 +480,13 @@ def global_state_uses(P, scope_fns, holders):
                 if memo:
                     dep = set()
                     for y in memo:
-                        dep |= {p[1] for p in pv.atoms(y["args"][-1]) if p[0] == "param"}
+                        a = pv.atoms(y["args"][-1])
+                        dep |= {p[1] for p in a if p[0] == "param"}
+                        if not dep and any(p[0] in ("call", "field") and not str(p[1]).startswith(("core::option::Option", "core::cell", "std::thread"))
+                                           for p in a):
+                            # no parameter, but the stored value is computed at run time (read from other ambient state, a field, a
+                            # call): the holder carries that value from this call into later ones
+                            dep.add("a value computed at run time")
                     out.append((f, h, sorted(dep), []))
                 else:
                     out.append((f, h, None, None))
